@@ -29,9 +29,9 @@ def gen_scenarios(prop, tier, seed):
     big = tier != "quick"
     if prop == "C03":
         # every (n, s, T) of a grid, bench and test mode, no time limits
-        ns = range(0, 7) if not big else list(range(0, 12)) + [20]
+        ns = range(0, 7) if not big else list(range(0, 16)) + [20, 33]
         ss = [None, 0, 1, 2, 3]
-        ts = [1, 2, 3, 4] if not big else [1, 2, 3, 4, 5, 9]
+        ts = [1, 2, 3, 4] if not big else [1, 2, 3, 4, 5, 7, 9, 16]
         k = 0
         for n in ns:
             for s in ss:
@@ -65,7 +65,7 @@ def gen_scenarios(prop, tier, seed):
             sc = loop_base(rnd, f"z{j}", action=rnd.choice(["bench", "test"]))
             sc["options"] = {"sample_count": rnd.randint(1, 3), "sample_size": rnd.randint(1, 2), "max_time_ns": 0}
             scs.append(sc)
-    n_rand = {"C03": 300, "C04": 1500, "C19": 400}[prop] * (8 if big else 1)
+    n_rand = {"C03": 300, "C04": 1500, "C19": 400}[prop] * (30 if big else 1)
     for j in range(n_rand):
         sc = loop_base(rnd, f"t{j}", action="bench" if rnd.random() < 0.9 else "test")
         o = {"sample_count": rnd.choice([0, 1, 2, 3, 5, 8])}
